@@ -27,6 +27,21 @@ CHECKS = {
          "All integers in a dense window (2^16 negatives .. 2^21, thorough 2^20 .. 2^24), every 2^k+d (k<=64, |d|<=16), byte-pattern values and the rejected domain below -2^63 go through encode/dump/size/decode/load; all byte strings of length <=2, all strings of length <=11 over {01,80,ff}, <=6 over six symbols and all 10-byte tails go through the decoders; every scalar kind x cardinality x boundary value is compared byte-for-byte with the reference encoder.",
          "the remainder of the 2^64 domain is argued structurally only; the property's 'randomly elsewhere' clause is replaced by the structured sweep (sampling is a different technique family)",
          "DESIGN.md §4 C16"),
+ "C08": ("model_checking",
+         "exhaustive enumeration of (newer schema, value, every subset of retained fields) states and of every sequence of <=2 unknown records at every gap, each decoded/re-encoded/decoded on the real codec and by google.protobuf",
+         "Three five-field newer schemas spanning all wire types, packed, map, oneof, optional, nested and enum fields; all 32 older schemas of each; all reduced-alphabet values; plus all unknown-record sequences of length <=2 (6 field numbers x 4 wire types x payload shapes) at every gap of a known encoding. Checks that known fields are undisturbed, unknown records are re-emitted byte-for-byte in order, and the newer reader and the reference recover the original message.",
+         "trusts the wire model's tokenizer (validated against the reference on every case)",
+         "DESIGN.md §4 C08"),
+ "C10": ("fault_enumeration",
+         "exhaustive enumeration of message sequences (length <=3 / <=4 over an 8-message alphabet) x reader schema x every cut point of the delimited stream, replayed on the real dump/load",
+         "Every sequence is written with dump(SIZE_DELIMITED), compared with the wire model's and the reference's length-prefixed framing, read by the reference, and read back with load(SIZE_DELIMITED) at every cut point 0..len: messages wholly before the cut must be returned intact with the stream positioned at their boundary, and a load that returns must return exactly the written message.",
+         "trusts google.protobuf.proto.serialize/parse_length_prefixed as the framing reference",
+         "DESIGN.md §4 C10"),
+ "C17": ("fault_enumeration",
+         "complete enumeration of fault positions on valid encodings of every field kind x cardinality (truncations, tag/length byte corruptions, wire-type substitutions, groups, length perturbations, field 0) and of all short byte strings, judged by a schema-aware wire model and google.protobuf",
+         "For three values of every single-unit type: every truncation point, every tag and length byte x {8 bit flips, 00, 7f, 80, ff}, a well-formed record of every non-fitting wire type before/after, groups, declared-length perturbations, field number 0; plus all byte strings up to length 2 (3 thorough) against 6 classes. Decoding must terminate; a returned message must be type-correct and re-encodable; inputs the model and the reference both call malformed must be rejected; mismatched wire types must be kept as unknown fields without altering known ones.",
+         "the reference decoder is the arbiter of malformedness where it is more lenient than the wire model (e.g. inside skipped groups); agreement matrix is recorded in the evidence",
+         "DESIGN.md §4 C17"),
 }
 
 NOT_APPLICABLE_REASON = "check not built yet in this session; see DESIGN.md for the planned bounded-exhaustive exploration"
